@@ -22,6 +22,8 @@ func checkC14(R *Run) {
 	R.rule("one-reply", "on every CFG path of every registered handler at most one reply-constructor call is executed (calls inside a loop count twice unless the path leaves the function)")
 	R.rule("cursor", "(shared with C01) cursor protocol of Transaction.Read and Field.Read")
 	R.rule("layout", "(shared with C01) wire layout of Transaction and Field")
+	R.rule("id-unique", "(shared with C13) a reply finds its requester through the client ID: no two registered connections share one, and the zero ID is never handed out")
+	R.ruleIDUnique()
 
 	// ---- no-write-deadline: a write error on a client connection is only logged and the connection stays
 	// registered; that is sound only while a failed write means a dead connection.  A write deadline makes a write
@@ -905,6 +907,27 @@ func checkC18(R *Run) {
 			}
 		}
 		R.check(reads && renames, "persist-on-mutate", "mobius.ThreadedNewsYAML.Load / writeFile", P.pos(ld.Pos()), "Load reads the path writeFile renames onto", "the loader does not read the file the mutators write")
+	}
+	// the loader only reads: what a restart loads is what the last acknowledged mutation renamed into place (it never
+	// promotes, repairs or removes files — a leftover temp file is a half-written one)
+	if ld := R.mustFn("(*mobius.ThreadedNewsYAML).Load"); ld != nil {
+		mut := ""
+		for f := range P.reachFuncs(ld) {
+			if !P.isRepoPkg(pkgOf(f)) {
+				continue
+			}
+			for _, ci := range callsIn(f) {
+				switch n := calleeName(ci.Common()); n {
+				case "os.Rename", "os.Remove", "os.RemoveAll", "os.WriteFile", "os.Create", "os.Truncate", "os.Symlink", "os.Link":
+					mut = n + " at " + P.ipos(ci)
+				case "os.OpenFile":
+					if fl, ok := constInt(ci.Common().Args[1]); !ok || fl&0x3 != 0 {
+						mut = n + " (writable) at " + P.ipos(ci)
+					}
+				}
+			}
+		}
+		R.check(mut == "", "persist-on-mutate", "mobius.ThreadedNewsYAML.Load: read-only", P.pos(ld.Pos()), "the loader performs no filesystem mutation", "the loader changes the filesystem ("+mut+"): a restart can replace the last acknowledged state by something else (e.g. a temp file a crash left half-written)")
 	}
 	R.floor("persist-on-mutate", 5)
 
